@@ -43,7 +43,15 @@ def gen_components(rng, order, mode, hom, cplx):
     rk = rng.randint(1, 2)
     rks = [rk] * order if hom else [rng.randint(1, 2) for _ in range(order)]
 
-    def ent(shape):
+    # mixed dtypes (35 % of the complex cases): some of the component families S / L / M real, the others complex
+    fam_c = {'S': cplx, 'L': cplx, 'M': cplx}
+    if cplx and rng.random() < 0.35:
+        fam_c = {k: rng.random() < 0.5 for k in 'SLM'}
+        if not any(fam_c.values()):
+            fam_c[rng.choice('LM')] = True
+
+    def ent(shape, fam='S'):
+        cplx = fam_c[fam]
         n = int(np.prod(shape))
         if mode == 'int':
             a = np.array([float(rng.randint(-2, 2)) for _ in range(n)]).reshape(shape)
@@ -55,15 +63,15 @@ def gen_components(rng, order, mode, hom, cplx):
             a = a + 1j * np.array([rng.gauss(0, 1) for _ in range(n)]).reshape(shape)
         return a
     if hom:
-        S0, L0, M0 = ent((d0, d0)), ent((d0, d0, rk)), ent((rk, d0, d0))
+        S0, L0, M0 = ent((d0, d0)), ent((d0, d0, rk), 'L'), ent((rk, d0, d0), 'M')
         S = [S0] * order
         L = [L0] * order
         M = [M0] * order
     else:
         S = [ent((dims[i], dims[i])) for i in range(order)]
-        L = [ent((dims[i], dims[i], rks[i])) for i in range(order)]
-        M = [None] + [ent((rks[i - 1], dims[i], dims[i])) for i in range(1, order)]
-        M[0] = ent((1, dims[0], dims[0]))
+        L = [ent((dims[i], dims[i], rks[i]), 'L') for i in range(order)]
+        M = [None] + [ent((rks[i - 1], dims[i], dims[i]), 'M') for i in range(1, order)]
+        M[0] = ent((1, dims[0], dims[0]), 'M')
     I = [np.eye(d) for d in dims]
     return dims, S, L, I, M
 
@@ -153,10 +161,10 @@ def dense_step(scheme, tr, dims, gens, h):
 def side_case(seed, tr):
     rng = random.Random(seed)
     scheme = rng.choice(['lie', 'strang', 'yoshida', 'kahan_li'])
-    clause = rng.choice(['step', 'step', 'order', 'norm'])
+    clause = rng.choice(['step', 'step', 'order', 'norm', 'unit'])
     order = rng.randint(2, 4 if clause != 'order' else 3)
     hom = rng.random() < 0.4
-    cplx = rng.random() < 0.4 or clause == 'norm'
+    cplx = (rng.random() < 0.4 or clause == 'norm') and clause != 'unit'
     dims, S, L, I, M = gen_components(rng, order, 'float', hom, cplx)
     scale = 0.3
     S = [s * scale for s in S]
@@ -167,8 +175,33 @@ def side_case(seed, tr):
     desc = dict(scheme=scheme, clause=clause, dims=dims, hom=hom, complex=cplx)
     N = int(np.prod(dims))
     x0 = gen_tt(rng, dims, [1] * order, max_ranks(dims), cplx, 'float')
+    if clause == 'unit':
+        # "enabling normalisation returns unit-norm states": positive data and a small step so that the states stay positive
+        # (the Manhattan norm of the code is the sum of the entries and presupposes non-negative tensors)
+        x0 = TT([np.abs(c) + 0.5 for c in x0.cores])
     xv = dense(x0.cores).reshape(N)
     try:
+        if clause == 'unit':
+            nrm = rng.choice([1, 2])
+            h = 0.02
+            desc['normalize'] = nrm
+            gens = local_generators(dims, S, L, I, M)
+            sol = call_scheme(scheme, hom, S, L, I, M, x0, h, 2, threshold=1e-14, max_rank=50, normalize=nrm)
+            P = dense_step(scheme, tr, dims, gens, h)
+            ref = xv.astype(complex)
+            for k in (1, 2):
+                ref = P @ ref
+                if np.min(np.real(ref)) <= 0:
+                    desc['skipped'] = 'state not positive'
+                    return None, desc
+                ref = ref / (np.sum(ref) if nrm == 1 else np.linalg.norm(ref))
+                v = dense(sol[k].cores).reshape(N)
+                got = float(np.real(np.sum(v))) if nrm == 1 else float(np.linalg.norm(v))
+                if abs(got - 1.0) > 1e-8:
+                    return 'normalize=%d: state %d has %s-norm %.10g, not 1' % (nrm, k, nrm, got), desc
+                if not close(v, ref, 1e-8):
+                    return 'normalize=%d: state %d is not the normalised dense product' % (nrm, k), desc
+            return None, desc
         if clause == 'norm':
             # skew-Hermitian generator: S_i := i * Hermitian, L (x) M := i * (Hermitian (x) Hermitian)
             def herm(a):
